@@ -98,6 +98,9 @@ func runMutants(opts *Options, p *PropInfo, rep *Report) []mutantResult {
 					}
 				}()
 				p.Run(ctx)
+				if f := seedfix3[p.ID]; f != nil {
+					f(ctx)
+				}
 			}()
 			for _, o := range sub.Obs {
 				if o.Status != Violation {
